@@ -105,8 +105,13 @@ class LinesTheory:
 
     def saturate(self, it, formulas):
         work = []
+        added = []
         for f in formulas:
-            self.collect(it, f, work, 0)
+            if isinstance(f, tuple):
+                if f[1] <= self.DEPTH:
+                    self.collect(it, f[0], work, f[1])
+            else:
+                self.collect(it, f, work, 0)
         while work:
             kind, args, depth = work.pop()
             args = [z3.simplify(a) if a.sort() == I else a for a in args]
@@ -163,9 +168,11 @@ class LinesTheory:
                                           MSTART(A, n, k) < MSTART(A, n, j)))
                 lst.append(k)
             for f in new:
-                it.sadd(f)
+                it.S.add(f)
+                added.append((f, depth + 1))
                 if depth < self.DEPTH:
                     self.collect(it, f, work, depth + 1)
+        return added
 
     def collect(self, it, f, work, depth):
         stack = [f]
